@@ -67,7 +67,7 @@ theorem Tr.fresh {e : Env} {nf : Bool} (hk : e.useHostIno = false) {b : Bool} {s
   | frame hd hc' hl hb hy hn =>
     exact ⟨⟨by rw [hn]; exact f.two, by rw [hd, hn]; exact f.dataLt, by rw [hb, hn]; exact f.byIdLt,
       by rw [hy, hn]; exact f.byHLt⟩, by rw [hc']; exact hc⟩
-  | @lookup s0 s1 sp0 r0 h =>
+  | @lookup s0 s1 sp0 r0 _ h =>
     rcases h with ⟨er, _, hd, c, _, hb, hy, hn⟩ | ⟨ino, d, _, hm, hd, c, _, hb, hy, hn⟩
       | ⟨ino, d0, _, _, hd, c, _, hb, hy, hg, hz⟩
     · refine ⟨⟨by have := f.two; omega, ?_, ?_, ?_⟩, by rw [c]; exact hc⟩
